@@ -10,6 +10,7 @@ same map), LogicSim.s[1].  Clauses / pairs:
   lanes     sims N vs N', stimulus lane i moved to lane j
   k         c_prop(sims=k) vs full: lanes < k identical; M3: no write to a column >= k
   dataset   D datasets with global (mode 0, seed=j) or per-lane (mode 1) selection vs a simulator built from dataset j alone
+  restore   pickle round trip of the simulator object (WaveSim / WaveSimCuda.__getstate__/__setstate__) between batches
   logic     LogicSim m=2/4/8: reuse, strip, lanes (incl. lanes >= 8)
 """
 import numpy as np
@@ -31,7 +32,7 @@ REAL_VS_STUB = {'real': ['kyupy.sim.SimOps', 'kyupy.wave_sim (all kernels, host 
 ASSUMPTIONS = ['stimuli are exact 0.0/1.0 (CPU assign treats non-zero as 1, GPU assign thresholds at 0.5; outside {0,1} the property does not speak)',
                's[8]/s[9] with sd>0 are excluded as in the property\'s own observation list',
                'lane-position and lane-count pairs use one dataset or selection mode 0/1 (the default random mode seeds every lane differently by design)']
-EXPECTED_PROBES = ['pair_reuse', 'pair_strip', 'pair_gpu', 'pair_lanes', 'pair_k', 'pair_dataset', 'pair_logic', 'ppo2ppi_then_keep', 'k_lt_sims', 'multi_dataset']
+EXPECTED_PROBES = ['pair_restore', 'pair_reuse', 'pair_strip', 'pair_gpu', 'pair_lanes', 'pair_k', 'pair_dataset', 'pair_logic', 'ppo2ppi_then_keep', 'k_lt_sims', 'multi_dataset']
 
 
 def gen(rng, tier, i):
@@ -48,7 +49,7 @@ def gen(rng, tier, i):
             'batches': batches, 'actrl': wavegen.gen_actrl(rng, p=0.3)}
     base = {'c_reuse': rng.random() < 0.3, 'strip_forks': rng.random() < 0.3}
     case['base'] = base
-    kinds = ['reuse', 'strip', 'gpu', 'gpu', 'lanes', 'k', 'dataset']
+    kinds = ['reuse', 'strip', 'gpu', 'gpu', 'lanes', 'k', 'dataset', 'restore']
     rng.shuffle(kinds)
     pairs = []
     for kind in kinds[:rng.randint(3, 5)]:
@@ -67,6 +68,10 @@ def gen(rng, tier, i):
             pairs.append({'kind': 'lanes', 'sims2': n2, 'lane_map': lane_map, 'cls': rng.choice(['cpu', 'gpu'])})
         elif kind == 'k':
             if sims > 1: pairs.append({'kind': 'k', 'k': rng.randint(1, sims - 1), 'cls': rng.choice(['cpu', 'gpu']), 'block': wavegen.gen_block(rng)})
+        elif kind == 'restore':
+            if len(batches) > 1:
+                pairs.append({'kind': 'restore', 'cls': rng.choice(['cpu', 'gpu']), 'after': sorted(set(rng.randrange(len(batches) - 1) for _ in range(rng.randint(1, 2)))),
+                              'c_reuse': rng.random() < 0.5, 'sched': wavegen.gen_order_sched(rng), 'block': wavegen.gen_block(rng)})
         elif kind == 'dataset':
             if n_sets > 1:
                 mode = rng.choice([0, 1])
@@ -202,6 +207,16 @@ def execute(case):
             for bno, (a, b) in enumerate(zip(cA, o2)):
                 if not np.array_equal(a['abuf'][:, :k], b['abuf'][:, :k]) and a['abuf'].shape == b['abuf'].shape and a['abuf'].shape[1] >= k:
                     res.violate('first-k-lanes-changes-abuf', f'batch {bno}: abuf lanes < {k} differ'); return res
+        elif kind == 'restore':
+            # F-restore of the simulator object between batches: only the serialised state survives
+            cfg1 = dict(base, cls=p['cls'], c_reuse=p['c_reuse'], sched=p['sched'], block=p['block'])
+            h1, o1 = wsim.run_config(built, case, cfg1, res, monitors=())
+            h2, o2 = wsim.run_config(built, case, dict(cfg1, restore_after=p['after']), res, monitors=())
+            differ += 1
+            if not cmp_ports(res, 'simulator-restore-changes-result', f'pickle round trip of the {p["cls"]} simulator after batch(es) {p["after"]}', o1, o2, ident): return res
+            for bno, (a, b) in enumerate(zip(o1, o2)):
+                if not np.array_equal(a['abuf'], b['abuf']):
+                    res.violate('simulator-restore-changes-abuf', f'batch {bno}: abuf differs after a pickle round trip of the simulator'); return res
         elif kind == 'dataset':
             nsets = case['delays']['n_sets']
             res.count('faultfree_dataset_pairs')
